@@ -76,6 +76,11 @@ chk("C14","E3-hist","model_checking",
   "All operation sequences to depth 5 (quick) / 6 (thorough) over a 15-op alphabet (install keys, send_rtp, raw send, send_rtcp, sync BYE, receive clear / protected / wrong-key RTP and RTCP, bridge to keyed / unkeyed target, clear bridge, close) on a real SRTP-mandatory RtpTransport with two bridge targets on in-memory sockets, for 2-3 profiles; every captured datagram must authenticate under webrtc-srtp with the emitter's keys, nothing may be emitted before keys exist, nothing unauthenticated may reach listeners / observers / the bridged peer.",
   "Trusted: webrtc-srtp 0.17 as reference (its AES-CM SRTCP path needs the E bit checked first, see evidence assumptions). Operation-granularity interleavings only.",
   "explicit-state history enumeration on real transports judged against an independent SRTP implementation","DESIGN.md 4.14")
+
+chk("C07","E4-enum","exploration",
+  "Decoder part: for 68 entry points, all byte strings of length 0..L over a per-decoder alphabet (raw and inside valid frames), every truncation / single-byte substitution (all 256 values) / two-position boundary substitution of seed messages produced by the stack's own encoders, line and token mutation of seed SDPs, long periodic packet histories; oracle = no panic (also in spawned tasks), < 50 ms and bounded allocation per call, sweeps in child processes so aborts and hangs are attributed. Live part (engine E2): about 1100 malformed SCTP packets (sealed under the genuine peer's DTLS keys) and 2300 DTLS datagrams injected into live endpoints at 2-3 stages each into both roles on the deterministic simulator; oracle = no task panics, execution finishes.",
+  "Bounded sub-spaces only (stated in the evidence); allocation bound is a heuristic constant (64*len + 64 KiB, 1 MiB for PeerConnection-level entries); ICE/TURN private readers are not reached.",
+  "exhaustive bounded input enumeration on the real decoders under a panic/time/allocation oracle, plus exhaustive catalogue injection into live endpoints on the simulator","DESIGN.md 4.7")
 todo = {p: "check under construction in this round (DESIGN.md section 8 build order); not yet claimed" for p in props if p not in C}
 m = {"version": 1,
  "setup_cmd": "cd /verif/harness && CARGO_NET_OFFLINE=true cargo build --release --offline --workspace",
@@ -84,10 +89,10 @@ m = {"version": 1,
    "baseline_off_cmd": "/verif/baseline.sh", "source_commits": hooks, "add_only": True},
  "engines": [
   {"name":"E1-loom","path":"harness/h_loom","serves_properties":["C20"],"kind_free_text":"loom DPOR over the repository's spsc.rs/track.rs included textually with shadowed primitives"},
-  {"name":"E2-sim","path":"harness/vh/src/{sim,sctp_sim,sctp_props,dtls_sim,explorer,wire}.rs + bin/{c02,c03,c11}.rs","serves_properties":["C01","C02","C03","C11","C12","C13"],"kind_free_text":"deterministic two-endpoint simulator (real IceConn/DTLS/SCTP on an in-memory socket, paused tokio clock, seeded RNG) under a deviation-bounded fault explorer"},
+  {"name":"E2-sim","path":"harness/vh/src/{sim,sctp_sim,sctp_props,dtls_sim,explorer,wire}.rs + bin/{c02,c03,c11}.rs","serves_properties":["C01","C02","C03","C07","C11","C12","C13"],"kind_free_text":"deterministic two-endpoint simulator (real IceConn/DTLS/SCTP on an in-memory socket, paused tokio clock, seeded RNG) under a deviation-bounded fault explorer"},
   {"name":"E5-loopback","path":"harness/vh/src/bin/c06.rs","serves_properties":["C06"],"kind_free_text":"finite lattices of configurations / credentials / crash points on real loopback sockets, thrice-confirmed"},
   {"name":"E3-hist","path":"harness/vh/src/bin/{c05,c09,c14,c18}.rs","serves_properties":["C05","C09","C14","C18"],"kind_free_text":"explicit-state search over operation histories replayed on fresh real objects"},
-  {"name":"E4-enum","path":"harness/vh/src/bin/{c04,c15,c16}.rs","serves_properties":["C04","C15","C16"],"kind_free_text":"complete enumeration of bounded input spaces against reference models / independent implementations"}],
+  {"name":"E4-enum","path":"harness/vh/src/bin/{c04,c07,c15,c16}.rs + src/c07/","serves_properties":["C04","C07","C15","C16"],"kind_free_text":"complete enumeration of bounded input spaces against reference models / independent implementations"}],
  "checks": [C[p] for p in props if p in C],
  "not_applicable": [{"property_id": p, "reason": r} for p, r in todo.items()],
  "notes": "See DESIGN.md. Exit codes: 0 held (KNOWN-FINDING lines allowed) / 1 VIOLATION / 2 machinery failure. Known and fixed findings: /verif/known_findings.json."}
